@@ -279,6 +279,8 @@ class SymReal:
         c.assume(z3.And(_mul(kr, self.d) <= self.n, self.n < _mul(kr + 1, self.d)))
         return SymReal(kr, _ONE, None)
 
+    __floor__ = floor
+
     def isfinite(self):
         return True
 
